@@ -315,7 +315,39 @@ def rule_r3_r10(rep, program: Program):
         if len(calls) != 1:
             raise AnalysisError(f"{f.qualname}: expected one _merge_subtrees call")
         c = calls[0]
-        args = [norm(x) for x in c.args]
+        tuple_defs = {n.targets[0].id: n.value for n in ast.walk(f.node) if isinstance(n, ast.Assign) and len(n.targets) == 1 and isinstance(n.targets[0], ast.Name) and isinstance(n.value, (ast.Tuple, ast.List))}
+        dirvar = dirtest.split(" ")[0]
+
+        def arg_list(call, positive_dir):
+            """Argument texts of a call for one direction; `*t[::direction]` on a tuple local is expanded."""
+            out = []
+            for a in call.args:
+                if isinstance(a, ast.Starred):
+                    v = a.value
+                    rev = False
+                    if isinstance(v, ast.Subscript) and isinstance(v.slice, ast.Slice) and v.slice.lower is None and v.slice.upper is None and v.slice.step is not None:
+                        st_txt = norm(v.slice.step)
+                        if st_txt == dirvar:
+                            rev = not positive_dir
+                        elif st_txt == f"-{dirvar}":
+                            rev = positive_dir
+                        elif st_txt == "-1":
+                            rev = True
+                        elif st_txt != "1":
+                            raise AnalysisError(f"{f.qualname}: starred argument with an unrecognised slice {norm(a)[:40]}")
+                        v = v.value
+                    if isinstance(v, ast.Name) and v.id in tuple_defs:
+                        items = [norm(x) for x in tuple_defs[v.id].elts]
+                    elif isinstance(v, (ast.Tuple, ast.List)):
+                        items = [norm(x) for x in v.elts]
+                    else:
+                        raise AnalysisError(f"{f.qualname}: starred argument outside the grammar: {norm(a)[:40]}")
+                    out.extend(reversed(items) if rev else items)
+                else:
+                    out.append(norm(a))
+            return out
+
+        args = None
 
         def resolve(nm, positive_dir):
             e = defs.get(nm)
@@ -328,8 +360,21 @@ def rule_r3_r10(rep, program: Program):
                 return norm(e.orelse) if positive_dir else norm(e.body)
             return None
 
+        term_calls = [n for n in ast.walk(f.node) if isinstance(n, ast.Call) and norm(n.func) == "self._termination_criterion"]
+        if len(term_calls) != 1:
+            raise AnalysisError(f"{f.qualname}: expected one _termination_criterion call")
+        merged_name = next((norm(n.targets[0]) for n in ast.walk(f.node) if isinstance(n, ast.Assign) and n.value is c), None)
         for positive_dir in (True, False):
+            args = arg_list(c, positive_dir)
+            if len(args) != 2:
+                raise AnalysisError(f"{f.qualname}: _merge_subtrees called with {len(args)} arguments")
             neg, pos = resolve(args[0], positive_dir), resolve(args[1], positive_dir)
+            # the termination check must look at the merged tree and the same (negative, positive) pair
+            targs = arg_list(term_calls[0], positive_dir)
+            tres = [targs[0]] + [resolve(x, positive_dir) for x in targs[1:]] if targs else []
+            r.inst({"function": f.qualname, "direction": "+1" if positive_dir else "-1", "termination check on": tres})
+            if tres != [merged_name, neg, pos]:
+                r.violate(PROP, f"{f.qualname}:termination-args:dir={'+' if positive_dir else '-'}:{tres}", f"for direction {'+1' if positive_dir else '-1'} the termination criterion is evaluated on {tres} but the merged tree is {merged_name} = merge(negative={neg}, positive={pos}): the sub-tree checks then use momentum sums over the wrong (non-contiguous) states, so whether a trajectory terminates depends on where it was started", node=term_calls[0], file=f.file)
             want_neg, want_pos = (older, newer) if positive_dir else (newer, older)
             r.inst({"function": f.qualname, "direction": "+1" if positive_dir else "-1", "merge(neg,pos)": [neg, pos]})
             if (neg, pos) != (want_neg, want_pos):
